@@ -121,7 +121,7 @@ def run_one(binary, scen, seed, outdir, extra_env=None):
         import thread_mc
         env["VRT_SCEN"] = thread_mc.scen_text(scen)
     for k, v in scen.get("env", {}).items():
-        env[k] = str(v)
+        env[k] = str(v).replace("/verif/", ROOT + "/")
     if extra_env:
         env.update(extra_env)
     try:
